@@ -523,7 +523,11 @@ func c06ClashCase(kind string) *Case { return c06ClashCaseAt(kind, false) }
 
 // c06ClashCaseAt: userFirst puts the user-defined statement before the script
 // whose generated label it may equal.
-func c06ClashCaseAt(kind string, userFirst bool) *Case {
+func c06ClashCaseAt(kind string, userFirst bool) *Case { return c06ClashCaseFull(kind, userFirst, false) }
+
+// c06ClashCaseFull: with sameContent the user-defined text / movement has
+// exactly the content of the inline one whose generated label it may take.
+func c06ClashCaseFull(kind string, userFirst, sameContent bool) *Case {
 	atoms := &AtomTable{Coded: false}
 	sname := atoms.New(ClsIdent, "script", "")
 	uname := atoms.New(ClsIdent, "user", "")
@@ -537,7 +541,14 @@ func c06ClashCaseAt(kind string, userFirst bool) *Case {
 		src = fmt.Sprintf("script %s {\n  %s(moves(walk_up))\n}\nmovement %s {\n  walk_down\n}", sname.Placeholder(), cmd.Placeholder(), uname.Placeholder())
 		gen = func() interp.Value { return cat(sname.Val, "_Movement_0") }
 	}
+	if sameContent {
+		src = strings.Replace(src, "\"other$\"", "\"hello$\"", 1)
+		src = strings.Replace(src, "walk_down", "walk_up", 1)
+	}
 	name := "clash-" + kind
+	if sameContent {
+		name += "-same-content"
+	}
 	if userFirst {
 		i := strings.Index(src, "\n}\n") + 3
 		src = src[i:] + "\n" + src[:i-1]
@@ -591,10 +602,10 @@ func RunC06(env *Env, rep *Report) {
 	for _, t := range tpls {
 		cases = append(cases, c06Case(t))
 	}
-	cases = append(cases, c06PairCase(), c06ClashCase("text"), c06ClashCase("movement"), c06ClashCaseAt("text", true), c06ClashCaseAt("movement", true))
+	cases = append(cases, c06PairCase(), c06ClashCase("text"), c06ClashCase("movement"), c06ClashCaseAt("text", true), c06ClashCaseAt("movement", true), c06ClashCaseFull("text", false, true), c06ClashCaseFull("text", true, true), c06ClashCaseFull("movement", false, true))
 	rep.Technique = "symbolic execution of the real inline-text / moves() hoisting (go/ssa) with symbolic contents; the sharing pattern (which contents are equal) is enumerated by the solver through the parser's own set lookups (z3 seq + LIA)"
 	rep.Explanation = "Bounded symbolic verification, not a proof. Program templates placing inline texts and moves() in every position the property names (plain command, later argument, two in one command, inside if/else/while, switch, an autovar condition in an &&-chain and in a parenthesised group, a poryswitch case selected / not selected, inline map scripts incl. table rows, several scripts) are compiled by symbolic execution of the real code with the text contents as unconstrained SMT strings, string types none/ascii/braille/symbolic, step names symbolic. The parser's dedup lookups (inlineTextsSet / inlineMovementsSet) and the terminator test are decision points, so the solver enumerates every equality pattern among the contents and every 'already terminated' combination. Per path the oracle recomputes - forking on any equality the code did not decide - the expected label of every use (first appearance numbering per owning script, shared iff same final content and same type) and asserts: the command carries exactly that label; the label is defined exactly once with exactly that content and directive; nothing else is hoisted; no command is left with an empty argument. Two clash cases use String-sorted names so that 'user text/movement name = generated label' is found by the solver: it must be a compile error."
-	rep.Bounds = map[string]interface{}{"templates": append(append([]string{}, tpls...), "typed-then-untyped-one-command", "clash-text", "clash-movement", "clash-text-user-statement-first", "clash-movement-user-statement-first"), "max_inline_texts_per_program": map[string]int{"quick": 3, "thorough": 4}[env.Tier], "max_moves_per_program": map[string]int{"quick": 2, "thorough": 3}[env.Tier]}
+	rep.Bounds = map[string]interface{}{"templates": append(append([]string{}, tpls...), "typed-then-untyped-one-command", "clash-text", "clash-movement", "clash-text-user-statement-first", "clash-movement-user-statement-first", "clash-text-same-content", "clash-text-same-content-user-statement-first", "clash-movement-same-content"), "max_inline_texts_per_program": map[string]int{"quick": 3, "thorough": 4}[env.Tier], "max_moves_per_program": map[string]int{"quick": 2, "thorough": 3}[env.Tier]}
 	rep.Outside = []string{"more than 3 inline texts / 2 moves() per program", "format() texts (C07)", "text contents outside printable ASCII"}
 	rep.Assumptions = []string{"text contents are printable ASCII without '\"'", "names are generic identifiers (Int-coded) except in the clash cases"}
 	rep.Functions = []string{"parseCommandStatement", "addImplicitData", "addImplicitTexts", "addImplicitMovements", "getMovementsKey", "getImplicitTextLabel", "getImplicitMovementLabel", "ParseProgram", "formatTextTerminator", "emitText", "emitMovementStatement", "parseMovesOperator", "parsePoryswitchStatement", "parseMapscriptsStatement"}
